@@ -206,21 +206,31 @@ Fixpoint parse_str (fuel : nat) (l : list Z) : option (list Z) :=
   | S f =>
       match l with
       | [] => Some []
-      | 92 :: 117 :: a :: b :: c :: d :: r =>
-          match unhex a, unhex b, unhex c, unhex d, parse_str f r with
-          | Some x, Some y, Some z, Some w, Some rest => Some ((x * 4096 + y * 256 + z * 16 + w) :: rest)
-          | _, _, _, _, _ => None
-          end
-      | 92 :: e :: r =>
-          match parse_str f r with
-          | Some rest =>
-              if (e =? 34)%Z then Some (34 :: rest) else if (e =? 92)%Z then Some (92 :: rest)
-              else if (e =? 110)%Z then Some (10 :: rest) else if (e =? 114)%Z then Some (13 :: rest)
-              else if (e =? 116)%Z then Some (9 :: rest) else if (e =? 47)%Z then Some (47 :: rest)
-              else if (e =? 98)%Z then Some (8 :: rest) else if (e =? 102)%Z then Some (12 :: rest) else None
-          | None => None
-          end
-      | c :: r => if (c =? 34)%Z || (c <? 32)%Z then None else
-                  match parse_str f r with Some rest => Some (c :: rest) | None => None end
+      | c :: r =>
+          if (c =? 92)%Z then
+            match r with
+            | [] => None
+            | e :: r1 =>
+                if (e =? 117)%Z then
+                  match r1 with
+                  | a :: b :: c' :: d :: r2 =>
+                      match unhex a, unhex b, unhex c', unhex d, parse_str f r2 with
+                      | Some x, Some y, Some z, Some w, Some rest => Some ((x * 4096 + y * 256 + z * 16 + w)%Z :: rest)
+                      | _, _, _, _, _ => None
+                      end
+                  | _ => None
+                  end
+                else
+                  match parse_str f r1 with
+                  | Some rest =>
+                      if (e =? 34)%Z then Some (34%Z :: rest) else if (e =? 92)%Z then Some (92%Z :: rest)
+                      else if (e =? 110)%Z then Some (10%Z :: rest) else if (e =? 114)%Z then Some (13%Z :: rest)
+                      else if (e =? 116)%Z then Some (9%Z :: rest) else if (e =? 47)%Z then Some (47%Z :: rest)
+                      else if (e =? 98)%Z then Some (8%Z :: rest) else if (e =? 102)%Z then Some (12%Z :: rest) else None
+                  | None => None
+                  end
+            end
+          else if (c =? 34)%Z || (c <? 32)%Z then None
+          else match parse_str f r with Some rest => Some (c :: rest) | None => None end
       end
   end.
